@@ -217,7 +217,10 @@ CmdStep(S, ev) ==
          LET flt == IF ev.hasm THEN (IF ev.ok THEN Refine(FAll, ev.ast) ELSE FNone) ELSE S.filter
              r   == ListResult(S, flt, ev.cap)
              err == IF ev.hasm /\ ~ev.ok THEN <<ItError("parse")>> ELSE <<>>
-         IN IF ~r.def THEN [S |-> [S EXCEPT !.lastKnown = FALSE], out |-> err \o <<ItInfo("list-unspecified")>>, oc |-> "cmd"]
+             \* (a line that contradicted the protocol is kept by its connection but not in the common record: what a
+             \*  query on that connection lists is then not settled)
+             ghost == S.sel # 0 /\ S.conns[S.sel].ghosts > 0
+         IN IF ~r.def \/ ghost THEN [S |-> [S EXCEPT !.lastKnown = FALSE], out |-> err \o <<ItInfo("list-unspecified")>>, oc |-> "cmd"]
             ELSE IF r.matched = 0
             THEN [S |-> S,
                   out |-> err \o <<ItInfo("list"), [k |-> "none", n |-> r.didnt, may |-> FALSE]>>, oc |-> "cmd"]
